@@ -33,11 +33,20 @@ RULE = ("prog: 2..6 flows, each waits for `match E(<subset of the payload, occas
         "(UserIntentLog, StopFlow of no flow), start of a helper flow, await of a flow that ends at once; the action is wrapped in 0..3 flows (say<d> / emit<d>); 25% of them are triggered "
         "by an action event (UtteranceUserAction.Finished) instead of E; 20% of the declared priorities override an earlier priority statement; 30% are ROUNDS programs: the flows end after "
         "their action and are activated (or loop in `while True`), and 1..2 further events with the same keys and re-drawn values follow — every round is judged. For every run_to_completion call "
-        "of a program the skeleton of the main loop is recorded and replayed on the Lean loop model (C05.round).")
+        "of a program the skeleton of the main loop is recorded and replayed on the Lean loop model (C05.round). Phase 6: 14% internal-trigger programs (g_prog_internal): the "
+        "competing flows are observers / interceptors of an INTERNAL event — `match StartFlow(flow_id=\"tgt\")`, `match StartFlow(<parameters>)` (start of any flow), "
+        "`match FlowStarted/FlowFinished/FlowFailed(flow_id=\"tgt\", <parameters>)`, `match tgt(<all parameters>).Started()/.Finished()/.Failed()`, `match $ref.Finished()/.Failed()`, "
+        "`match UnhandledEvent(event=\"E\", <parameters>)` — set off by the external event (trigger flow starts tgt / tgt waits for E and ends or aborts / nobody handles E), with declared "
+        "priorities and specificities of their own, all shapes / wait constructs / pre statements / wrappers of the path programs, 30% of the trigger-flow programs with ROUNDS (a new tgt "
+        "instance per round). In every program run every positive score computed under a flow priority is re-computed without it (score = priority x unscaled score), tagged "
+        "`score:<branch>:prio-declared|prio-default` with the branch names enumerated from the source (harness/translate/c05.py). bscore: 2 000 / 30 000 (event, reference event) pairs built per "
+        "branch (flow-id start, any-flow start, internal, external, action event) scored with and without a priority by the real function, against Lean eventScore / scoreBranch / scaleBy (C05.bscore).")
 TRUSTED_BASE = [
     "record/replay harness harness/props/C05.py (recorders around _resolve_action_conflicts/_abort_flow/random.choice, rank mapping of floats, "
     "event keys = canonical JSON of name+arguments; phase 5: recorders around _advance_head_front / _process_internal_events_without_default_matchers that classify the "
     "calls of the main loop as event / merge pass / advance and count the pushed internal events) + Lean driver Drive/C05.lean",
+    "translator harness/translate/c05.py (branch chain of _compute_event_comparison_score by AST path: StartFlow test with the flow_id split, InternalEvents.ALL test, else; "
+    "every exit other than the final `return match_score` returns a non-positive constant; the last step is `if priority: match_score *= priority`)",
     "CPython: `sorted` is stable also with reverse=True, list comparison is lexicographic, dict iteration is insertion ordered; float comparison "
     "(the model sees ranks of the floats that occur in a call, an order isomorphism)",
 ]
@@ -202,6 +211,100 @@ def g_prog_paths(rng):
     return case
 
 
+# Phase 6: the triggering event is an INTERNAL event.  kind -> (how the event is produced, match forms, score branch)
+ITRIG_KINDS = ["startflow_id", "startflow_id", "startflow_any", "flowstarted", "flowfinished", "flowfinished", "flowfailed", "unhandled"]
+
+
+def g_prog_internal(rng, mini=False):
+    """Observer / interceptor flows that react to an INTERNAL event: the start of a flow (`match StartFlow(flow_id="tgt")`, or
+    `match StartFlow(<parameters>)` for the start of any flow with these parameters), `FlowStarted` / `FlowFinished` / `FlowFailed` of a flow
+    (by event name, by `tgt(<all parameters>).Finished()`, or through a flow reference `$r.Finished()`), or `UnhandledEvent(event="E", …)`.
+    The external event E only sets the internal one off (flow `trig` starts `tgt`, or `tgt` itself waits for E and ends / aborts, or
+    nobody handles E).  The observers differ in declared priority and in the number of parameters of the internal event they mention, and
+    reach their actions like the flows of g_prog_paths (groups, pre statements, wrappers, awaited / started helpers, `when`)."""
+    npay = rng.choice([1, 2, 2, 3, 3])
+    payload = {k: rng.choice([1, 2]) for k in rng.sample(KEYS, npay)}
+    kind = rng.choice(ITRIG_KINDS)
+    n = rng.choice([2, 2, 2, 3, 3, 4])
+    loops = LOOPS[: rng.choice([1, 1, 1, 2])]
+    poolsize = rng.choice([2, 2, 3, 3])
+    if mini:
+        # small programs (2..3 direct observers of one loop, no paths), weighted towards the two StartFlow branches
+        kind = rng.choice(["startflow_id"] * 3 + ["startflow_any"] * 6 + ["flowstarted", "flowfinished", "unhandled"])
+        n, loops = rng.choice([2, 3, 3]), LOOPS[:1]
+    via = "self" if kind == "flowfailed" or (kind == "flowfinished" and rng.random() < 0.6) else "trig"
+    flows = []
+    for i in range(n):
+        keys = rng.sample(list(payload), rng.randrange(0, len(payload) + 1))
+        pat = {k: payload[k] for k in keys}
+        shape = "direct" if mini else rng.choice(["direct"] * 6 + ["await", "helper", "when"])
+        f = {"pat": pat, "prio": rng.choice(PRIOS + ["0.9", "0.5", "0.3"]), "loop": rng.choice(loops), "shape": shape,
+             "kind": "send" if shape == "direct" and rng.random() < 0.15 else "action", "act": rng.randrange(poolsize),
+             "ref": False, "stop_after": False}
+        if not mini and rng.random() < 0.5:
+            add_path(rng, f, payload, True)
+        form = "bare"
+        if kind in ("flowstarted", "flowfinished", "flowfailed"):
+            r = rng.random()
+            wk = (f.get("wait") or {}).get("kind")
+            if r < 0.25:
+                form = "ctor"
+            elif r < 0.5 and via == "self" and f["shape"] in ("direct", "when") and wk not in ("await_or", "await_and"):
+                form = "ref"
+        f["iform"] = form
+        if form == "ctor" or (kind == "startflow_any" and not f["pat"]):
+            # `tgt(<all parameters>).Finished()` names every parameter (an unnamed one is None and does not match); the start of ANY flow
+            # is narrowed to flows that have these parameters
+            f["pat"] = dict(payload) if form == "ctor" else {next(iter(payload)): payload[next(iter(payload))]}
+        w = f.get("wait")
+        if w and isinstance(w.get("alt"), dict):
+            if form == "ctor":
+                w["alt"] = dict(payload)
+            elif kind == "startflow_any" and not w["alt"]:
+                w["alt"] = dict(f["pat"])
+            if w["kind"] in ("and", "await_and"):
+                w["alt"] = dict(f["pat"]) if len(w["alt"]) != len(f["pat"]) else w["alt"]
+        if rng.random() < 0.08:
+            f["pat"] = dict(f["pat"], **{rng.choice(list(payload)): 3})  # does not fit
+            if w and w["kind"] in ("and", "await_and"):
+                w["alt"] = dict(f["pat"])
+        if kind == "startflow_id":
+            # a start is matched by flow id only: the pattern is empty, a flow that does not fit watches another flow id
+            f["nofit"] = any(v == 3 for v in f["pat"].values())
+            f["pat"] = {}
+            if w and isinstance(w.get("alt"), dict):
+                w["alt"] = {}
+        flows.append(f)
+    # at least two declared priorities differ in most programs: priority is the only way to rank equally specific observers
+    if mini or rng.random() < 0.5:
+        flows[0]["prio"], flows[1]["prio"] = rng.sample(["0.9", "0.5", "0.81", "0.3", None], 2)
+        if mini and n > 2:
+            flows[2]["prio"] = None
+        if rng.random() < 0.5:
+            flows[1]["pat"], flows[1]["iform"] = dict(flows[0]["pat"]), flows[0]["iform"]
+            if flows[1]["iform"] == "ref" and (flows[1]["shape"] not in ("direct", "when") or (flows[1].get("wait") or {}).get("kind") in ("await_or", "await_and")):
+                flows[1]["shape"] = "direct"
+                flows[1].pop("wait", None)
+            w = flows[1].get("wait")
+            if w and w["kind"] in ("and", "await_and"):
+                w["alt"] = dict(flows[1]["pat"])
+    case = {"kind": "prog", "payload": payload, "flows": flows, "mode": rng.choice(["start", "start", "activate"]), "followup": False,
+            "itrig": {"kind": kind, "via": via}}
+    if any(f["iform"] == "ref" for f in flows):
+        case["mode"] = "start"
+    if rng.random() < 0.3:
+        case["args2"] = True
+    if (via == "trig" or kind == "unhandled") and kind != "flowfailed" and rng.random() < (0.15 if mini else 0.3):
+        # ROUNDS: the same observers react to the internal event again (a new instance of tgt is started with re-drawn parameter values)
+        make_rounds(rng, case)
+        for f in flows:
+            f["iform"] = "bare" if f["iform"] == "ref" else f["iform"]
+    for f in flows:
+        if f["prio"] and rng.random() < 0.15:
+            f["prio0"] = rng.choice(["0.3", "0.95", "1.0"])
+    return case
+
+
 def make_rounds(rng, case):
     """The SAME flows compete again: activated flows that end after their action (they restart when they finish or fail), and
     1..2 further events E whose payload has other values — the winner of every round follows that round's payload."""
@@ -331,12 +434,77 @@ def g_score(rng):
     return {"kind": "score", "n": n, "a": a, "b": b}
 
 
+BSCORE_BRANCHES = ["startflow_id", "startflow_any", "internal", "internal", "umim_plain", "umim_action", "umim_action"]
+BSCORE_INTERNAL = ["FlowStarted", "FlowFinished", "FlowFailed", "UnhandledEvent", "StopFlow", "FinishFlow", "UserIntentLog"]
+
+
+def g_bscore(rng):
+    """One (event, reference event) pair per case, built for ONE branch of `_compute_event_comparison_score`, scored with a priority
+    from the pool and without: differential against Lean `eventScore` (C05.bscore) per branch x {priority declared, not declared}."""
+    br = rng.choice(BSCORE_BRANCHES)
+    enc = lambda v: {"s": v} if isinstance(v, str) else {"i": v}  # noqa
+    params = {k: rng.choice([1, 2]) for k in rng.sample(KEYS, rng.randrange(0, 4))}
+    sub = {k: (v if rng.random() < 0.9 else 3) for k, v in params.items() if rng.random() < 0.5}
+    if rng.random() < 0.05:
+        sub["z"] = 1
+    prio = None if rng.random() < 0.35 else rng.choice(SCORE_PRIOS[3:])
+    case = {"kind": "bscore", "branch": br, "prio": prio, "start_args": []}
+    if br in ("startflow_id", "startflow_any"):
+        eargs = dict({"flow_id": "tgt", "flow_instance_uid": "u1", "source_flow_instance_uid": "u0", "source_head_uid": "h0", "flow_hierarchy_position": "0.1"}, **params)
+        rargs = dict(sub)
+        if br == "startflow_id":
+            rargs = dict({"flow_id": "tgt" if rng.random() < 0.8 else "other"}, **(sub if rng.random() < 0.4 else {}))
+        elif rng.random() < 0.3:
+            rargs["flow_instance_uid"] = "u1"
+        case["ev"] = {"kind": "internal", "name": "StartFlow", "args": [[k, enc(v)] for k, v in eargs.items()]}
+        case["ref"] = {"kind": "internal", "name": "StartFlow", "args": [[k, enc(v)] for k, v in rargs.items()]}
+    elif br == "internal":
+        name = rng.choice(BSCORE_INTERNAL)
+        rname = name if rng.random() < 0.85 else rng.choice(BSCORE_INTERNAL)
+        eargs = dict({"flow_id": "tgt", "flow_instance_uid": "u1", "source_flow_instance_uid": "u1"}, **params)
+        if name == "UnhandledEvent":
+            eargs = dict({"event": "E", "loop_ids": "L"}, **params)
+        rargs = dict(sub)
+        r = rng.random()
+        if name == "UnhandledEvent":
+            if r < 0.8:
+                rargs["event"] = "E"
+        else:
+            if r < 0.7:
+                rargs["flow_id"] = "tgt" if rng.random() < 0.9 else "other"
+            if rng.random() < 0.3:
+                rargs["flow_instance_uid"] = "u1" if rng.random() < 0.8 else "u2"
+        case["ev"] = {"kind": "internal", "name": name, "args": [[k, enc(v)] for k, v in eargs.items()]}
+        case["ref"] = {"kind": "internal", "name": rname, "args": [[k, enc(v)] for k, v in rargs.items()]}
+        if name != "UnhandledEvent" and rng.random() < 0.3:
+            case["ref"]["flow_uid"] = "u1" if rng.random() < 0.8 else "u2"
+    elif br == "umim_plain":
+        case["ev"] = {"kind": "plain", "name": "E", "args": [[k, enc(v)] for k, v in params.items()]}
+        case["ref"] = {"kind": "plain", "name": "E" if rng.random() < 0.9 else "E2", "args": [[k, enc(v)] for k, v in sub.items()]}
+    else:
+        eargs = dict({"final_script": "hi"}, **params)
+        rargs = dict(sub)
+        if rng.random() < 0.3:
+            rargs["final_script"] = "hi"
+        case["ev"] = {"kind": "action", "name": "UtteranceBotActionFinished", "args": [[k, enc(v)] for k, v in eargs.items()], "action_uid": "a1"}
+        case["ref"] = {"kind": "action", "name": "UtteranceBotActionFinished", "args": [[k, enc(v)] for k, v in rargs.items()]}
+        r = rng.random()
+        if r < 0.5:
+            case["ref"]["action_uid"] = "a1" if r < 0.4 else "a2"
+        if rng.random() < 0.6:
+            sa = {"script": "hi", "n": 1}
+            case["start_args"] = [["a1", [[k, enc(v)] for k, v in sa.items()]]]
+            if rng.random() < 0.5:
+                case["ref"]["args"].append(["action_arguments", {"d": [[k, enc(v)] for k, v in sa.items() if rng.random() < 0.6]}])
+    return case
+
+
 def gen_cases(rng, tier):
     n_prog, n_fn = (400, 6000) if tier == "quick" else (10000, 150000)
     cases = []
     for _ in range(n_prog):
         r = rng.random()
-        c = g_prog_prio0(rng) if r < 0.015 else g_prog(rng) if r < 0.57 else (g_prog_paths(rng) if r < 0.82 else (g_prog_lowprio(rng) if r < 0.92 else (g_prog_stop2(rng) if r < 0.96 else g_prog_restart(rng))))
+        c = g_prog_prio0(rng) if r < 0.015 else g_prog(rng) if r < 0.43 else g_prog_internal(rng) if r < 0.57 else (g_prog_paths(rng) if r < 0.82 else (g_prog_lowprio(rng) if r < 0.92 else (g_prog_stop2(rng) if r < 0.96 else g_prog_restart(rng))))
         if tier == "quick":
             c["choices"] = [[rng.randrange(6) for _ in range(6)] for _ in range(3)]
         else:
@@ -344,10 +512,17 @@ def gen_cases(rng, tier):
             c["choices"] = "tree"  # systematic exploration of the tie-break tree (exhaustive when <= 4 heads tie)
             c["extra_choices"] = [[rng.randrange(6) for _ in range(6)] for _ in range(2)]
         cases.append(c)
+    for _ in range(200 if tier == "quick" else 4000):
+        # small internal-trigger programs: the two StartFlow branches x {priority declared, not declared} in numbers
+        c = g_prog_internal(rng, mini=True)
+        c["choices"] = [[rng.randrange(6) for _ in range(6)] for _ in range(2)]
+        cases.append(c)
     for _ in range(n_fn):
         cases.append(g_fn(rng))
     for _ in range(2000 if tier == "quick" else 40000):
         cases.append(g_score(rng))
+    for _ in range(2000 if tier == "quick" else 30000):
+        cases.append(g_bscore(rng))
     return cases
 
 
@@ -356,7 +531,7 @@ def escalate(rng, focus, tier):
     cases = []
     for k in range(6000):
         r = rng.random()
-        c = g_prog_paths(rng) if r < 0.5 else (g_prog(rng) if r < 0.85 else (g_prog_lowprio(rng) if r < 0.95 else g_prog_restart(rng)))
+        c = g_prog_paths(rng) if r < 0.35 else g_prog_internal(rng) if r < 0.6 else (g_prog(rng) if r < 0.85 else (g_prog_lowprio(rng) if r < 0.95 else g_prog_restart(rng)))
         c["choices"] = [[rng.randrange(6) for _ in range(6)] for _ in range(3)]
         cases.append(c)
     return cases
@@ -462,11 +637,62 @@ def wait_and_act(f, i, pat, loopname, a2, out):
     raise ValueError(k)
 
 
+def _parse_pat(argstr):
+    return {kv.split("=")[0].strip(): int(kv.split("=")[1]) for kv in argstr.split(",") if kv.strip()}
+
+
+def int_match_expr(case, f, argstr):
+    """the match expression on the INTERNAL triggering event that stands for `E(<argstr>)` in flow f (phase 6)"""
+    kind = case["itrig"]["kind"]
+    args = argstr.strip()
+    sep = ", " if args else ""
+    if kind == "startflow_id":
+        # the other parameters take no part in a match on a flow id
+        return 'StartFlow(flow_id="nosuchflow")' if f.get("nofit") else 'StartFlow(flow_id="tgt")'
+    if kind == "startflow_any":
+        return f"StartFlow({args})"
+    if kind == "unhandled":
+        return f'UnhandledEvent(event="E"{sep}{args})'
+    member = {"flowstarted": "Started", "flowfinished": "Finished", "flowfailed": "Failed"}[kind]
+    form = f.get("iform", "bare")
+    if form == "ctor":
+        return f"tgt({args}).{member}()"
+    if form == "ref":
+        return f"$r.{member}({args})"
+    return f'Flow{member}(flow_id="tgt"{sep}{args})'
+
+
+def trigger_flows(case):
+    """flows that turn the external event E into the internal triggering event, and the lines of `main` that start them"""
+    it = case["itrig"]
+    if it["kind"] == "unhandled":
+        return [], [], []
+    pay = case["payload"]
+    params = "".join(f" ${k}" for k in pay)
+    call = "tgt(" + ", ".join(f"{k}={v}" for k, v in pay.items()) + ")"
+    if it["via"] == "self":
+        body = "  match E()\n" + ("  abort\n" if it["kind"] == "flowfailed" else "")
+        return [f"flow tgt{params}\n{body}"], [f"  start {call} as $t\n"], []
+    body = "  $d = 1\n" if it["kind"] == "flowfinished" else "  match Never()\n"
+    if case.get("rounds"):
+        # one trigger flow per round: event E(rd=k) starts a new instance of tgt with the parameter values of round k
+        trigs, starts = [], []
+        for k, pl in enumerate([pay] + list(case["rounds"])):
+            callk = "tgt(" + ", ".join(f"{a}={v}" for a, v in pl.items()) + ")"
+            trigs.append(f"flow trig{k}\n  match E(rd={k})\n  start {callk}\n  match Never()\n")
+            starts.append(f"  start trig{k}\n")
+        return [f"flow tgt{params}\n{body}"] + trigs, [], starts
+    return [f"flow tgt{params}\n{body}", f"flow trig\n  match E()\n  start {call}\n  match Never()\n"], [], ["  start trig\n"]
+
+
 def render(case):
+    import re
+
     out = wrappers(case)
     a2 = bool(case.get("args2"))
     for i, f in enumerate(case["flows"]):
         loopname = loop_name(f, i)
+        out_start = len(out)
         deco = f'@loop("{f["loop"]}")\n' if f["loop"] else ""
         pat = ", ".join(f"{k}={v}" for k, v in f["pat"].items())
         prio = [f"  priority {f['prio']}"] if f["prio"] else []
@@ -501,14 +727,19 @@ def render(case):
             body.append("  match Never()")
         if case.get("loopbody") and f["shape"] in ("direct", "await"):
             body = body[: len(prio)] + ["  while True"] + ["  " + x for x in body[len(prio):]]
+        if case.get("itrig") and f.get("iform") == "ref":
+            head += " $r"
         out.append(deco + head + "\n" + "\n".join(body) + "\n")
+        if case.get("itrig"):
+            for j in range(out_start, len(out)):
+                out[j] = re.sub(r"(?<![A-Za-z0-9_.])E\(([^()]*)\)", lambda m, f=f: int_match_expr(case, f, m.group(1)), out[j])
     kw = "activate" if case["mode"] == "activate" else "start"
-    top = lambda i, f: ("o" if f["shape"] == "borrow" else "f") + str(i)  # noqa
-    out.append("flow main\n" + "".join(f"  {kw} {top(i, f)}\n" for i, f in enumerate(case["flows"])) + "  match Never()\n")
+    top = lambda i, f: ("o" if f["shape"] == "borrow" else "f") + str(i) + ("($t)" if case.get("itrig") and f.get("iform") == "ref" else "")  # noqa
+    tflows, pre_main, post_main = trigger_flows(case) if case.get("itrig") else ([], [], [])
+    out += tflows
+    out.append("flow main\n" + "".join(pre_main) + "".join(f"  {kw} {top(i, f)}\n" for i, f in enumerate(case["flows"])) + "".join(post_main) + "  match Never()\n")
     src = "\n".join(out)
     if case.get("evtype") == "action":
-        import re
-
         src = re.sub(r"(?<![A-Za-z0-9_.])E\(", "UtteranceUserAction.Finished(", src)
     return src
 
@@ -544,16 +775,39 @@ class Recorder:
         self.sk_heads = {}
         self.sk_pending = None
         self.ahf_depth = 0
+        # phase 6: every positive score computed under a flow priority, by branch of the score computation
+        self.score_tags = set()
+        self.score_viol = []
 
     def __enter__(self):
         sm = self.sm
         for name in ("_resolve_action_conflicts", "_abort_flow", "_generate_action_event_from_actionable_element",
-                     "_advance_head_front", "_process_internal_events_without_default_matchers"):
+                     "_advance_head_front", "_process_internal_events_without_default_matchers", "_compute_event_comparison_score"):
             self.saved[name] = getattr(sm, name)
         self.saved_choice = sm.random.choice
         orig_ahf, orig_proc = self.saved["_advance_head_front"], self.saved["_process_internal_events_without_default_matchers"]
         orig_resolve, orig_abort, orig_gen = (self.saved[n] for n in ("_resolve_action_conflicts", "_abort_flow", "_generate_action_event_from_actionable_element"))
         rec = self
+
+        orig_cscore = self.saved["_compute_event_comparison_score"]
+
+        def cscore(state, event, ref_event, priority=None):
+            r = orig_cscore(state, event, ref_event, priority)
+            if priority is None or not isinstance(r, float) or r <= 0.0:
+                return r
+            # "scaled by a declared flow priority", for EVERY kind of triggering event: the score under priority p is p × the
+            # score of the same match without a priority (p = 1.0 when the flow declared none; 0.0: finding priority-zero-unscaled)
+            br = score_branch(sm, event, ref_event)
+            rec.score_tags.add(f"score:{br}:" + ("prio-declared" if priority != 1.0 else "prio-default"))
+            if priority:
+                try:
+                    r0 = orig_cscore(state, event, ref_event, None)
+                except Exception:  # noqa
+                    return r
+                if abs(r - r0 * priority) > 1e-12 and len(rec.score_viol) < 3:
+                    rec.score_viol.append({"branch": br, "event": event.name, "ref": ref_event.name, "ref_args": sorted(map(str, ref_event.arguments)),
+                                           "prio": priority, "score": r, "unscaled": r0})
+            return r
 
         def proc(state, event):
             if rec.skel is not None and rec.ahf_depth == 0:
@@ -679,6 +933,7 @@ class Recorder:
         sm._advance_head_front = ahf
         sm._process_internal_events_without_default_matchers = proc
         sm._abort_flow = abort
+        sm._compute_event_comparison_score = cscore
         sm._generate_action_event_from_actionable_element = gen
         sm.random.choice = choice
         return self
@@ -687,6 +942,36 @@ class Recorder:
         for name, fn in self.saved.items():
             setattr(self.sm, name, fn)
         self.sm.random.choice = self.saved_choice
+
+
+KNOWN_SCORE_BRANCHES = ["startflow_id", "startflow_any", "internal", "umim"]
+
+
+def score_branch(sm, event, ref_event):
+    """the branch of `_compute_event_comparison_score` that scores the pair (names as enumerated from the source by
+    harness/translate/c05.py::score_branches; Lean twin: MatchBranch.scoreBranch)"""
+    ie = sm.InternalEvents
+    if event.name == ie.START_FLOW and ref_event.name == ie.START_FLOW:
+        return "startflow_id" if "flow_id" in ref_event.arguments else "startflow_any"
+    if event.name in ie.ALL and ref_event.name in ie.ALL:
+        return "internal"
+    return "umim"
+
+
+def static_tie():
+    """the branches of the score computation of the CURRENT source are the ones the generator and the Lean classification know, and
+    no exit of the function carries a computed score past the priority scaling"""
+    from ..translate import c05 as tr
+
+    info = tr.score_branches()
+    problems = list(info["problems"])
+    for b in info["branches"]:
+        if b not in KNOWN_SCORE_BRANCHES:
+            problems.append(f"_compute_event_comparison_score has a branch the generator / model do not cover: {b}")
+    for b in KNOWN_SCORE_BRANCHES:
+        if b not in info["branches"]:
+            problems.append(f"_compute_event_comparison_score no longer has the branch {b}")
+    return problems
 
 
 def _clean_event(e):
@@ -719,6 +1004,9 @@ def run_prog(case):
         events += [{"type": "F"}, {"type": "G"}]
     for pl in case.get("rounds", []):
         events.append(dict({"type": etype}, **pl))
+    if case.get("itrig") and case.get("rounds") and case["itrig"]["kind"] != "unhandled":
+        for k, e in enumerate(events):
+            e["rd"] = k  # the round's trigger flow starts tgt with the round's parameter values
     seen_sig = set()
     # "tree": systematic exploration of the tie-break tree — every run reports the candidate count of each random.choice
     # call; for every call beyond the forced prefix with n > 1 candidates the alternatives 1..min(n,4)-1 are scheduled.
@@ -788,6 +1076,8 @@ def run_prog(case):
                 if "exc" in step:
                     break
             run["calls"] = rec.calls
+            run["score_tags"] = sorted(rec.score_tags)
+            run["score_viol"] = rec.score_viol
             counts = rec.all_counts
         if tree and nruns <= MAX_TREE_RUNS and (nruns == 1 or len(choices) and choices not in case.get("extra_choices", [])):
             used = [(choices[k] if k < len(choices) else 0) for k in range(len(counts))]
@@ -920,6 +1210,67 @@ def run_score(case):
     return obs
 
 
+def run_bscore(case):
+    """The real `_compute_event_comparison_score` on one pair built for one branch: with the declared priority and without."""
+    sm = _SM
+    from nemoguardrails.colang.v2_x.runtime.flows import ActionEvent, Event, InternalEvent
+
+    from ..impl import valjson as vj
+
+    def mk(d):
+        args = {k: vj.dec(v) for k, v in d["args"]}
+        if d["kind"] == "plain":
+            return Event(name=d["name"], arguments=args)
+        if d["kind"] == "internal":
+            e = InternalEvent(name=d["name"], arguments=args)
+            if d.get("flow_uid"):
+                e.flow = types.SimpleNamespace(uid=d["flow_uid"])
+            return e
+        return ActionEvent(name=d["name"], arguments=args, action_uid=d.get("action_uid"))
+
+    ev, ref = mk(case["ev"]), mk(case["ref"])
+    state = types.SimpleNamespace(actions={u: types.SimpleNamespace(start_event_arguments={k: vj.dec(v) for k, v in sa}) for u, sa in case["start_args"]})
+    prio = float(case["prio"]) if case["prio"] else None
+    obs = {"branch": score_branch(sm, ev, ref), "prio": (list(vj.dyadic(prio)) if prio else None)}
+    try:
+        obs["scaled"] = float(sm._compute_event_comparison_score(state, ev, ref, prio))
+        obs["unscaled"] = float(sm._compute_event_comparison_score(state, ev, ref, None))
+    except Exception as e:  # noqa
+        obs["exc"] = type(e).__name__
+    return obs
+
+
+def _evres_float(m, prio):
+    """the float a model result stands for (None: the model says the call raises)"""
+    if m["res"] == "pos":
+        p = 1.0 if m["prio"] is None else float(m["prio"][0]) / float(2 ** m["prio"][1])
+        return p * 0.9 ** m["k"]
+    return {"zero": 0.0, "mismatch": -1.0}.get(m["res"])
+
+
+def _bscore_record(case, obs):
+    want = case["branch"].split("_")[0] if case["branch"].startswith("umim") else case["branch"]
+    orc = None
+    if "exc" in obs:
+        orc = "matcher raised " + obs["exc"]
+    elif obs["unscaled"] > 0.0 and obs["prio"] is not None and abs(obs["scaled"] - obs["unscaled"] * float(case["prio"])) > 1e-12:
+        orc = (f"{obs['branch']} branch: the match scores {obs['unscaled']} without a priority and {obs['scaled']} under the declared priority "
+               f"{case['prio']}: not priority x specificity")
+    elif obs["unscaled"] <= 0.0 and obs["scaled"] != obs["unscaled"]:
+        orc = f"{obs['branch']} branch: a pair that does not match ({obs['unscaled']}) scores {obs['scaled']} under priority {case['prio']}"
+    elif obs["branch"] != want:
+        orc = f"harness: pair built for branch {want} falls into branch {obs['branch']}"
+    req = {"m": "C05.bscore", "ev": {k: v for k, v in case["ev"].items() if v is not None}, "ref": {k: v for k, v in case["ref"].items() if v is not None},
+           "rx": [], "prio": obs["prio"], "start_args": case["start_args"]}
+    obs["_oracle"] = orc
+    obs["_model"] = [[req, {"bscore": True, "branch": obs["branch"], "scaled": obs.get("scaled"), "unscaled": obs.get("unscaled")}]]
+    obs["_sig"] = None
+    obs["_nt"] = "exc" not in obs and obs["unscaled"] > 0.0
+    pos = "exc" not in obs and obs["unscaled"] > 0.0
+    obs["_tags"] = ["kind:bscore", f"bscore:{case['branch']}:" + ("prio-declared" if case["prio"] and float(case["prio"]) != 1.0 else "prio-none") + ("" if pos else ":no-match")]
+    return obs
+
+
 def _score_near_tie(obs):
     from fractions import Fraction
 
@@ -928,6 +1279,8 @@ def _score_near_tie(obs):
 
 
 def run_impl(case):
+    if case["kind"] == "bscore":
+        return _bscore_record(case, run_bscore(case))
     if case["kind"] == "score":
         obs = run_score(case)
         if "exc" in obs:
@@ -950,7 +1303,7 @@ def run_impl(case):
                           {"score_sign": sign, "near": near}]]
         obs["_sig"] = None
         obs["_nt"] = a["k"] != b["k"] or a["prio"] != b["prio"]
-        obs["_tags"] = ["kind:score", "near-tie-skipped" if near else "order-compared", f"sign:{sign}"]
+        obs["_tags"] = ["kind:score", "near-tie-skipped" if near else "order-compared"]
         return obs
     return _run_impl(case)
 
@@ -1107,6 +1460,17 @@ def compare_one(exp, m):
                     f"resolutions (queued events, input heads, advancing heads) impl {exp['round_calls']} model {m['calls']}"
                     f"{' [model ran out of the recording]' if m['bad'] else ''}{' [recording not consumed]' if m['rest'] else ''}")
         return None
+    if "bscore" in exp:
+        if m["branch"] != exp["branch"]:
+            return f"branch of the score computation: impl {exp['branch']} model {m['branch']}"
+        if not m["law"]:
+            return "model: eventScore under the priority is not scaleBy priority of the unscaled eventScore"
+        for key in ("scaled", "unscaled"):
+            want = _evres_float(m[key], None)
+            got = exp[key]
+            if (want is None) != (got is None) or (want is not None and abs(want - got) > 1e-9 * max(1.0, abs(want))):
+                return f"{exp['branch']} branch, {key} score: impl {got} model {m[key]} (= {want})"
+        return None
     if "score_sign" in exp:
         # hypothesis `hr` of more_specific_wins: the float order (which the ranks are taken from) is the exact order of
         # priority * (9/10)^k; pairs whose exact values are closer than 1e-9 (relative) are outside the claim
@@ -1222,13 +1586,36 @@ def _flow_index(flow_id):
     return None
 
 
+def unmentioned_params(case, f, pat):
+    """number of parameters of the triggering event that the match of flow f with pattern `pat` leaves unmentioned"""
+    npay = len(case["payload"])
+    it = case.get("itrig")
+    if not it:
+        return npay - len(pat)
+    kind, form = it["kind"], f.get("iform", "bare")
+    if kind == "startflow_id":
+        return 0  # a start is matched by flow id: exact
+    if kind == "startflow_any":
+        # StartFlow carries flow_id, flow_instance_uid, source_flow_instance_uid, source_head_uid, flow_hierarchy_position + the flow's
+        # parameters; a match on the start of ANY flow counts one more step down
+        return npay + 5 - len(pat) + 1
+    if kind == "unhandled":
+        return npay + 2 - (1 + len(pat))  # the event's parameters + `event` + `loop_ids`
+    # FlowStarted / FlowFinished / FlowFailed: flow_id, flow_instance_uid, source_flow_instance_uid + the flow's parameters
+    if form == "ref":
+        return 0  # the reference names the instance and all its parameters
+    if form == "ctor":
+        return 2  # flow id and every parameter, not the instance
+    return npay + 3 - (1 + len(pat))
+
+
 def spec_vector(case, f):
     """Specificity vector of flow f computed from the patterns (independent of the interpreter)."""
-    unmentioned = len(case["payload"]) - len(f["pat"])
+    unmentioned = unmentioned_params(case, f, f["pat"])
     w = f.get("wait") or {}
     if w.get("kind") == "or" and isinstance(w.get("alt"), dict) and _pat_fits(case, w["alt"]):
         # both alternatives of an or-group may match the event: the flow matched as specifically as its best fitting alternative
-        u2 = len(case["payload"]) - len(w["alt"])
+        u2 = unmentioned_params(case, f, w["alt"])
         unmentioned = min(unmentioned, u2) if _pat_fits(case, f["pat"]) else u2
     s = 0.9 ** unmentioned
     p = float(f["prio"]) if f["prio"] else 1.0
@@ -1258,6 +1645,8 @@ def fits(case, f):
         return False  # waits for another event: the first event must leave it untouched
     if f["prio"] and float(f["prio"]) == 0.0:
         return False  # declared priority 0.0: every match of the flow is scaled to 0.0 = no match
+    if f.get("nofit"):
+        return False  # watches the start of another flow
     w = f.get("wait") or {}
     if w.get("kind") == "or" and isinstance(w.get("alt"), dict) and _pat_fits(case, w["alt"]):
         return True
@@ -1272,6 +1661,9 @@ def oracle_run(case, run):
             return f"run_to_completion raised on event #{k}: {st['exc']}"
         if st["missing_actions"]:
             return f"after event #{k} flows reference actions that are no longer in state.actions"
+    for v in run.get("score_viol", []):
+        return (f"a match on {v['ref']}({', '.join(v['ref_args'])}) against {v['event']} ({v['branch']} branch of the score computation) in a flow with "
+                f"priority {v['prio']} scored {v['score']}: not the declared priority times the score of the match itself ({v['prio']} x {v['unscaled']})")
     if not run["steps"]:
         return None
     r = oracle_round(case, run, 0)
@@ -1454,10 +1846,8 @@ def _tags(case, obs):
     calls = all_calls(case, obs)
     t.append(f"calls:{min(len(calls), 9)}")
     if case["kind"] == "prog":
-        t.append(f"runs:{min(len(obs['runs']), 12)}")
         if case.get("choices") == "tree":
             t.append("tie-tree-complete" if obs.get("tree_complete") else "tie-tree-truncated")
-        t.append(f"flows:{len(case['flows'])}")
         t.append("mode:" + case["mode"])
         for f in case["flows"]:
             t.append("shape:" + f["shape"])
@@ -1471,6 +1861,11 @@ def _tags(case, obs):
                 t.append(f"wrap:{f['wrap']}")
         if case.get("evtype"):
             t.append("trigger:action-event")
+        if case.get("itrig"):
+            t.append("trigger:internal:" + case["itrig"]["kind"])
+            for form in sorted({f.get("iform", "bare") for f in case["flows"]} - {"bare"}):
+                t.append("imatch:" + form)
+        t += sorted({x for r in obs["runs"] for x in r.get("score_tags", [])})
         if case.get("loopbody"):
             t.append("loop-body")
         if case.get("rounds"):
